@@ -21,6 +21,9 @@ def default_run_shard(mod, shard, rec):
                 break
         rec.journal(i)
         mod.run_case(case, rec)
+    if rec.case_cpu_limit:
+        import signal
+        signal.setitimer(signal.ITIMER_VIRTUAL, 0)
 
 
 def main(argv):
@@ -67,6 +70,9 @@ def main(argv):
         from vmon.checks import common as _common
         _common.CONFIG.update(cfg)
         mod = importlib.import_module('vmon.checks.' + prop.lower())
+        lim = getattr(mod, 'CASE_CPU_LIMIT', {}).get(shard['tier'])
+        if lim and 'replay_case' not in shard:
+            r.case_cpu_limit = lim
         sysmon.install(env.REPO, lines=getattr(mod, 'WANT_LINES', True),
                        raises=getattr(mod, 'WANT_RAISES', False))
         if 'replay_case' in shard:
